@@ -67,22 +67,25 @@ def processBlock (b : Block) (st : Stats) : IO Stats := do
           IO.println s!"BAD {b.id} step={k} obs-roundtrip | {renderObs iobs} | {raw}"
           return { st with bads := st.bads + 1 }
         implTrace := implTrace.push (op, iobs)
-        if !diff then
-          let r := step env w op
-          w := r.1
-          let mobs := obsOf w r.2.1 r.2.2
-          modelTrace := modelTrace.push (op, mobs)
-          pjHist := pjHist.push w.disk.patchesJson
-          sjHist := sjHist.push w.disk.stateJson
-          let mtxt := renderObs mobs
-          if mtxt != raw then
-            diff := true
-            IO.println s!"DIFF {b.id} step={k} op={" ".intercalate opParts} | M {mtxt} | I {raw}"
-            st := { st with diffs := st.diffs + 1 }
-        else
-          -- after a disagreement the stale-file history is taken from the implementation
-          pjHist := pjHist.push iobs.pj
-          sjHist := sjHist.push iobs.sj
+        let r := step env w op
+        w := r.1
+        let mobs := obsOf w r.2.1 r.2.2
+        modelTrace := modelTrace.push (op, mobs)
+        -- stale-file damage replays what the implementation had on disk
+        pjHist := pjHist.push iobs.pj
+        sjHist := sjHist.push iobs.sj
+        let mtxt := renderObs mobs
+        if mtxt != raw then
+          let fs := diffFields mobs iobs
+          if !diff then
+            IO.println s!"DIFF {b.id} step={k} fields={",".intercalate fs} op={" ".intercalate opParts} | M {mtxt} | I {raw}"
+          else
+            IO.println s!"DIFF+ {b.id} step={k} fields={",".intercalate fs}"
+          diff := true
+          st := { st with diffs := st.diffs + 1 }
+          -- resynchronise the model's disk with the implementation's so that later steps are compared
+          -- from the same state (the disagreement itself has been reported)
+          w := { w with disk := diskOfObs iobs }
         k := k + 1
         st := { st with steps := st.steps + 1 }
   if !diff then IO.println s!"OK {b.id}"
